@@ -270,6 +270,10 @@ func ValText(v reflect.Value, ty *Ty) string {
 	case "u8", "u16", "u32":
 		return "I" + strconv.FormatUint(v.Uint(), 10)
 	case "f32":
+		// not v.Float(): the float32→float64→float32 round trip quiets signalling NaNs
+		if f, ok := v.Interface().(float32); ok {
+			return "F" + strconv.FormatUint(uint64(math.Float32bits(f)), 10)
+		}
 		return "F" + strconv.FormatUint(uint64(math.Float32bits(float32(v.Float()))), 10)
 	case "f64":
 		return "D" + strconv.FormatUint(math.Float64bits(v.Float()), 10)
